@@ -2717,7 +2717,8 @@ def rest_array_from_rest_list(
             rest_info += (fifths, mode)
 
         if time_signature_map is not None:
-            beats, beat_type = time_signature_map(rest.start.t)
+            # (the map also returns the number of musical beats)
+            beats, beat_type = time_signature_map(rest.start.t)[:2]
 
             rest_info += (beats, beat_type)
 
